@@ -827,6 +827,7 @@ pub fn judge(case: &Case) -> Verdict {
         for k in 0..err_writes.min(6) {
             plans.push(vec![Fault::SinkFrom { sink: 2, at: k, err: ErrKind::Epipe }]);
             plans.push(vec![Fault::SinkFrom { sink: 2, at: k, err: ErrKind::Eio }]);
+            plans.push(vec![Fault::SinkFrom { sink: 2, at: k, err: ErrKind::Enospc }]);
         }
         for k in 0..r.opens.min(8) {
             for e in [ErrKind::Enoent, ErrKind::Emfile, ErrKind::Eacces] {
@@ -864,6 +865,23 @@ pub fn judge(case: &Case) -> Verdict {
             if let Some(x) = observational(&c2, &rf, &script, &format!("with {plan:?}")) {
                 v.violation = Some(x);
                 return v;
+            }
+            // a failing *diagnostic* write (stderr) and an interrupted, retried stdin read must
+            // not change what the program does: same probes, statuses, output and final status
+            // (EPIPE on stderr is excluded: a diagnostic written to a closed pipe would raise SIGPIPE)
+            let transparent = plan.iter().all(|f| matches!(f, Fault::SinkFrom { sink: 2, err: ErrKind::Eio | ErrKind::Enospc, .. } | Fault::StdinEintr { .. }));
+            if transparent {
+                let of = observe(&rf);
+                let a: Vec<(String, u8)> = o.main.iter().map(|(t, s, _)| (t.clone(), *s)).collect();
+                let b: Vec<(String, u8)> = of.main.iter().map(|(t, s, _)| (t.clone(), *s)).collect();
+                if a != b || rf.status != r.status || rf.out != r.out {
+                    v.violation = Some(viol(
+                        "C16/fault-changes-control-flow",
+                        format!("with {plan:?}: probes {:?} status {:?}, fault-free probes {:?} status {:?}; script={script:?}", b, rf.status, a, r.status),
+                        None,
+                    ));
+                    return v;
+                }
             }
         }
         // stdin ending at every line boundary
